@@ -51,6 +51,15 @@ func (bucket *Bucket) UUID() (string, error) {
 func (bucket *Bucket) Close(_ context.Context) {
 	traceEnter("Bucket.Close", "%s", bucket)
 
+	// Closing a handle twice must not release the shared store a second time.
+	bucket.mutex.Lock()
+	alreadyClosed := bucket.closed
+	bucket.closed = true
+	bucket.mutex.Unlock()
+	if alreadyClosed {
+		return
+	}
+
 	unregisterBucket(bucket)
 	verifPoint("close.afterUnregister", bucket.name)
 
